@@ -71,6 +71,13 @@ def lattice(name):
                 ("ethos-u65-256", "Sram_Only", "Size", None, "Greedy", 16),
                 ("ethos-u65-512", "default", "Performance", 4096, "HillClimb", 64)]
         return [dict(acc=a, mem=m, opt=o, arena=ar, alloc=al, align=ag) for a, m, o, ar, al, ag in rows]
+    if name == "cP":
+        # Performance strategy with a fast-storage limit below the un-striped peak: the real optimiser proposes several stripings
+        rows = [("ethos-u55-128", "Shared_Sram", "Performance", 30000, "HillClimb", 16),
+                ("ethos-u55-256", "Sram_Only", "Performance", 20000, "Greedy", 16),
+                ("ethos-u65-256", "default", "Performance", 16384, "HillClimb", 16),
+                ("ethos-u65-512", "Dedicated_Sram", "Performance", 24000, "HillClimb", 16)]
+        return [dict(acc=a, mem=m, opt=o, arena=ar, alloc=al, align=ag) for a, m, o, ar, al, ag in rows]
     if name == "c4":
         return lattice("c8")[:4]
     if name == "c2":
